@@ -21,6 +21,7 @@ from harness import coqemit as E
 from harness import fieldgen as G
 from harness import structgen as S
 from harness import c08enums as X
+from harness import c08extras as XT
 
 # the enum-class vocabulary of this check (this process only): mixed-in primitive types, falsy values, by-value twins
 G.ENUMS.update(X.EXTRA)
@@ -60,6 +61,8 @@ def gen_sfield(rnd, depth, classes, max_depth, hashable=False, optional_ok=True)
         # is exported as maximum 2): the export is then too permissive, which oneOf/not observe.  Characterised in
         # the report; the generator keeps explicit bounds consistent with the sign.
         lo, hi = c.get("min"), c.get("max")
+        if rnd.random() < 0.4:
+            lo = hi = None      # keep the declaration as drawn (the explicit bound then replaces the sign in the export)
         if f["s"] in ("Positive", "NonNegative") and lo is not None:
             x = float(G.unreify(lo))
             if x < 0 or (x == 0 and f["s"] == "Positive"):
@@ -190,6 +193,8 @@ class Env(S.Context):
         super().__init__()
         exec("from typedpy import mappers\n" + X.IMPORT, self.ns)
         self.required0 = {}
+        # a field declared as Inner may hold an instance of its subclass Sub that uses Sub's own field
+        self.instances["Inner"] = self.instances["Inner"] + [("struct", "Sub", [("a", ("int", 4)), ("c", ("int", 5))])]
         self.prelude = []            # (classes source, history) of earlier environments that share class NAMES with this one
 
     def add(self, c):
@@ -269,9 +274,8 @@ def materialise_defaults(rnd, c, env):
         if fd.pop("want_default", False):
             for _ in range(6):
                 v = G.gen_valid(rnd, fd["field"], env.instances)
-                if v[0] in ("int", "flt", "str", "bool", "enum") and (v[0] != "int" or v[1] != 0) and v != ("str", "") \
-                        and v != ("bool", False) and not (v[0] == "flt" and v[1] == 0):
-                    fd["default"] = v       # truthy defaults only (falsy ones are a separate defect, F12)
+                if v[0] in ("int", "flt", "str", "bool", "enum"):
+                    fd["default"] = v       # falsy defaults (0, "", False, 0.0) included
                     break
 
 
@@ -1055,6 +1059,126 @@ def rep_wrapper_none(doc, ctx):
         ctx["changed"] = True
 
 
+def is_optional(f):
+    return f["t"] == "anyof" and len(f["fs"]) == 2 and f["fs"][1]["t"] == "none"
+
+
+def field_walk(env, f, s, doc, fn, seen):
+    """Walk a declaration in parallel with its exported (dialect-translated) schema; children first."""
+    if not isinstance(s, dict):
+        return
+    t = f["t"]
+    if t == "seqeach" or (t == "set" and f.get("item")):
+        field_walk(env, f["item"], s.get("items"), doc, fn, seen)
+    elif t in ("seqpos", "tuple"):
+        if isinstance(s.get("items"), list):
+            for g, x in zip(f["items"], s["items"]):
+                field_walk(env, g, x, doc, fn, seen)
+    elif t == "mapkv":
+        x = s.get("additionalProperties") if isinstance(s.get("additionalProperties"), dict) else s.get("patternProperties")
+        field_walk(env, f["vf"], x, doc, fn, seen)
+    elif is_optional(f):
+        field_walk(env, f["fs"][0], s, doc, fn, seen)
+        return
+    elif t in ("allof", "anyof", "oneof"):
+        lst = s.get({"allof": "allOf", "anyof": "anyOf", "oneof": "oneOf"}[t])
+        if isinstance(lst, list):
+            for g, x in zip(f["fs"], lst):
+                field_walk(env, g, x, doc, fn, seen)
+    elif t == "not":
+        lst = s["not"].get("anyOf") if isinstance(s.get("not"), dict) else None
+        if isinstance(lst, list):
+            for g, x in zip(f["fs"], lst):
+                field_walk(env, g, x, doc, fn, seen)
+    elif t == "ref":
+        d = doc.get("definitions", {}).get(f["cls"])
+        if f["cls"] in env.classes:
+            class_walk(env, f["cls"], d, doc, fn, seen)
+    fn(f, s)
+
+
+def class_walk(env, cname, s, doc, fn, seen):
+    if cname in seen or not isinstance(s, dict):
+        return
+    seen.add(cname)
+    fields = env.all_fields(cname)
+    if env.wrapper_form(cname):
+        field_walk(env, fields[0]["field"], s, doc, fn, seen)
+    elif isinstance(s.get("properties"), dict):
+        ren = dict(env.renames(cname))
+        for fd in fields:
+            field_walk(env, fd["field"], s["properties"].get(ren.get(fd["name"], fd["name"])), doc, fn, seen)
+
+
+SIGN_SCHEMA = {"Positive": {"minimum": 0, "exclusiveMinimum": True}, "NonNegative": {"minimum": 0},
+               "Negative": {"maximum": 0, "exclusiveMaximum": True}, "NonPositive": {"maximum": 0}}
+
+
+def sign_lost(f):
+    return f["t"] == "num" and ((f["s"] in ("Positive", "NonNegative") and f.get("min") is not None)
+                                or (f["s"] in ("Negative", "NonPositive") and f.get("max") is not None))
+
+
+def rep_sign(doc, ctx):
+    """NumberMapper.get_min/get_max return the explicit bound INSTEAD of the bound implied by the sign class."""
+    env = ctx["env"]
+
+    def fn(f, s):
+        if sign_lost(f) and "allOf" not in s:
+            old = dict(s)
+            s.clear()
+            s["allOf"] = [old, dict(SIGN_SCHEMA[f["s"]])]
+            ctx["changed"] = True
+    class_walk(env, env.top, doc, doc, fn, set())
+
+
+def rep_literal_member(doc, ctx):
+    """Enum over a MIXED list of literals and enum members: EnumMapper lists a member by name, Enum.serialize returns
+    the stored member as it is (json: its value when the class mixes in a primitive type)."""
+    env = ctx["env"]
+
+    def fn(f, s_):
+        if f["t"] == "enumlit" and isinstance(s_.get("enum"), list):
+            for v in f["values"]:
+                if v[0] == "enum" and v[3][0] in ("int", "flt", "str", "bool"):
+                    s_["enum"] = s_["enum"] + [G.unreify(v[3])]
+                    ctx["changed"] = True
+    class_walk(env, env.top, doc, doc, fn, set())
+
+
+def has_subclass_struct(r, env):
+    if isinstance(r, (list, tuple)):
+        if len(r) == 3 and r[0] == "struct" and isinstance(r[1], str):
+            try:
+                if env.ancestors(r[1]):
+                    return True
+            except KeyError:
+                pass
+        return any(has_subclass_struct(x, env) for x in r)
+    return False
+
+
+def rep_subclass_instance(doc, ctx):
+    """A field declared as class B accepts instances of subclasses of B, serialized with the subclass's own fields;
+    the definition of B is closed (additionalProperties false)."""
+    env = ctx["env"]
+    if not has_subclass_struct(ctx["kwargs"], env):
+        return
+    for name, d in doc.get("definitions", {}).items():
+        if isinstance(d, dict) and d.get("additionalProperties") is False:
+            d["additionalProperties"] = True
+            ctx["changed"] = True
+
+
+def rep_positional_min(doc, ctx):
+    """Array(items=[...]) / Tuple require at least len(items) elements; the export has no minItems."""
+    def fn(s):
+        if s.get("type") == "array" and isinstance(s.get("items"), list) and s.get("minItems", 0) < len(s["items"]):
+            s["minItems"] = len(s["items"])
+            ctx["changed"] = True
+    walk_schemas(doc, fn)
+
+
 WF_REPAIRS = [("patternProperties-not-an-object-of-schemas", rep_patprops), ("required-empty", rep_required_empty),
               ("exclusiveMaximum-without-maximum", rep_exclmax)]
 COMPLETE_REPAIRS = [("sign-only-bound-rendered-as-epsilon", rep_eps), ("nested-field-wrapper", rep_wrapper),
@@ -1066,7 +1190,9 @@ COMPLETE_REPAIRS = [("sign-only-bound-rendered-as-epsilon", rep_eps), ("nested-f
                     ("uniqueItems-checked-before-normalisation", rep_unique_bool),
                     ("exclusiveMaximum-applied-to-sign-implied-maximum", rep_excl_implied),
                     ("Map-size-exported-as-minItems-maxItems", rep_map_sizes),
-
+                    ("sign-dropped-under-explicit-bound", rep_sign),
+                    ("enum-member-among-literals-serialized-as-stored", rep_literal_member),
+                    ("subclass-instance-under-base-class-reference", rep_subclass_instance),
                     ("Boolean-string-form-stored-raw", rep_bool_strings),
                     ("Optional-element-serialized-as-null", rep_null_elements),
                     ("field-wrapper-holding-None", rep_wrapper_none),
@@ -1074,6 +1200,14 @@ COMPLETE_REPAIRS = [("sign-only-bound-rendered-as-epsilon", rep_eps), ("nested-f
                     ("bool-value-under-numeric-field", rep_bool_number),
                     ("NotField-evaluated-on-serialized-form", rep_not),
                     ("OneOf-evaluated-on-serialized-form", rep_oneof)]
+
+
+# exactness: a repair explains "admitted by the schema, rejected by the Deserializer" when the repaired (stricter)
+# schema rejects the document
+EXACT_REPAIRS = [("positional-items-admit-shorter-arrays", rep_positional_min),
+                 ("nested-field-wrapper", rep_wrapper),
+                 ("Map-size-exported-as-minItems-maxItems", rep_map_sizes),
+                 ("sign-dropped-under-explicit-bound", rep_sign)]
 
 
 def apply_repairs(doc, repairs, ctx):
@@ -1108,7 +1242,7 @@ def classify(failures, repairs, prefix, generic):
     def passes(fi, r):
         if failures[fi]["inst"] is None:
             return r["schema_error"] is None and not r["refs_missing"] and not r["crash"]
-        return bool(r["verdicts"]) and r["verdicts"][0] is True
+        return bool(r["verdicts"]) and r["verdicts"][0] is failures[fi].get("want", True)
 
     multi = {}
     if jobs:
@@ -1200,39 +1334,33 @@ def rcase_text(env, attrs, obs_json):
 # ------------------------------------------------------------------ boundary documents (exact sub-fragment)
 
 def exact_field(f):
+    """The exact sub-fragment of the statement: everything schema-mappable except Set, unanchored patterns and
+    sign-only float bounds (defaults and date/time formats are excluded at class level / not generated)."""
     t = f["t"]
     if t == "num":
-        if f["k"] != "Integer" and f["s"] in ("Positive", "Negative"):
-            return False
-        if f["s"] != "Any" and (f.get("min") is not None or f.get("max") is not None):
-            return False                        # explicit bound overriding the sign: characterised separately
-        if f.get("xmax") and f.get("max") is None:
+        if f["k"] != "Integer" and ((f["s"] == "Positive" and f.get("min") is None)
+                                    or (f["s"] == "Negative" and f.get("max") is None)):
             return False
         return not (f.get("mult") is not None and f["mult"] <= 0)
     if t == "str":
         return f.get("pat") is None or G.PATTERNS[f["pat"]].startswith("^")
-    if t == "bool":
-        return True
-    if t == "enumlit":
-        return all(v[0] in ("int", "str") for v in f["values"])
-    if t == "enumcls":
+    if t in ("bool", "enumlit", "enumcls", "seqany", "mapany", "ref"):
         return True
     if t == "seqeach":
-        return f["k"] == "list" and not f.get("uniq") and exact_field(f["item"])
+        return exact_field(f["item"])
+    if t in ("seqpos", "tuple"):
+        return all(exact_field(g) for g in f["items"])
     if t == "mapkv":
-        kf = f["kf"]
-        return kf["t"] == "str" and not any(kf.get(k) for k in ("min", "max")) and kf.get("pat") is None \
-            and f["sz"] == [None, None] and exact_field(f["vf"])
-    if t == "ref":
-        return False
-    return False
+        return f["kf"]["t"] == "str" and exact_field(f["kf"]) and exact_field(f["vf"])
+    if t in ("allof", "anyof", "oneof", "not"):
+        return all(exact_field(g) or g["t"] == "none" for g in f["fs"])
+    return False            # set; none / any (unmappable)
 
 
 def exact_class(env):
-    c = env.ast(env.top)
-    return (not env.wrapper_form(env.top) and not c.get("mapper") and c.get("additional") is False
-            and all(fd.get("default") is None and exact_field(fd["field"]) for fd in c["fields"])
-            and len(env.resolved(env.top)["required"]) > 0)
+    """Every class of the environment the top class can reach is in the exact sub-fragment."""
+    return all(fd.get("default") is None and exact_field(fd["field"])
+               for n in env.generated for fd in env.ast(n)["fields"])
 
 
 def near(rnd, j):
@@ -1273,29 +1401,43 @@ def near(rnd, j):
 
 
 def deser_accepts(env, doc):
-    from typedpy import Deserializer
+    """The Deserializer paired with the export: for a field wrapper (exported in compact form) the documented
+    compact deserialization is switched on."""
+    from typedpy import Deserializer, Structure
+    from typedpy.structures import TypedPyDefaults
+    old = TypedPyDefaults.compact_deserialization_default
     try:
+        if env.wrapper_form(env.top):
+            Structure.set_compact_deserialization_default(True)
         Deserializer(env.classes[env.top]).deserialize(copy.deepcopy(doc))
         return True, None
     except Exception as ex:  # noqa
         return False, type(ex).__name__
+    finally:
+        Structure.set_compact_deserialization_default(old)
 
 
 # ------------------------------------------------------------------ the check
 
 def exact_culprit(env, doc, exn):
-    """Which field of the (flat, exact-fragment) top class makes the Deserializer reject a document its schema admits:
-    every field is tried alone, in a single-field class, on its own value.  -> a declaration shape."""
+    """Which field of the top class makes the Deserializer reject a document its schema admits: every field is tried
+    alone, in a single-field class, on its own value.  -> declaration shape(s)."""
     from typedpy import Deserializer
-    if not isinstance(doc, dict):
+    fields = env.all_fields(env.top)
+    if env.wrapper_form(env.top):
+        if isinstance(doc, dict):
+            return "compact-form-of-a-field-wrapper-is-an-object"
+        pairs = [(fields[0], doc)]
+    elif isinstance(doc, dict):
+        ren = dict(env.renames(env.top))
+        pairs = [(fd, doc[ren.get(fd["name"], fd["name"])]) for fd in fields if ren.get(fd["name"], fd["name"]) in doc]
+    else:
         return "document"
     out = []
-    for fd in env.ast(env.top)["fields"]:
-        if fd["name"] not in doc:
-            continue
+    for fd, v in pairs:
         try:
             T = S.single_field_class(fd["field"], env)
-            Deserializer(T).deserialize({"f": copy.deepcopy(doc[fd["name"]])})
+            Deserializer(T).deserialize({"f": copy.deepcopy(v)})
         except Exception as ex:  # noqa
             out.append(field_kind(fd["field"]))
     return "+".join(sorted(set(out))) if out else "class"
@@ -1311,13 +1453,75 @@ def field_kind(f):
         return "mapkv(%s)" % field_kind(f["vf"])
     if t == "num":
         return "num-%s-%s" % (f["k"], f["s"])
+    if t in ("allof", "anyof", "oneof", "not", "tuple", "seqpos"):
+        subs = sorted(set(field_kind(g) for g in f.get("fs") or f.get("items")))
+        return "%s(%s)" % (t, ",".join(subs))
     return t
+
+
+def run_extras(rep):
+    """Constructs of the quantifier outside the Coq model (harness/c08extras.py): observed-behaviour clauses only."""
+    jobs, meta = [], []
+    for name, src in XT.CASES:
+        base = {"kind": "extras", "case": name, "extras_src": src, "python": XT.PRELUDE + src}
+        try:
+            ns, out, sers = XT.run_case(src)
+        except Exception as ex:  # noqa  the case itself (class definitions / instances) no longer runs
+            rep.finding("C08/extras/%s/case-raises/%s" % (name, E.exn_name(ex)),
+                        "the classes / valid instances of case %s raise: %s" % (name, ex), base)
+            continue
+        rep.count("extras", 1, ("extras", name, out[0]))
+        if out[0] != "ok":
+            rep.finding("C08/extras/%s/export-raises/%s" % (name, out[1]), "structure_to_schema raises %s" % out[1], base)
+            continue
+        if not (is_jsonable(out[1]) and is_jsonable(out[2])):
+            rep.finding("C08/extras/%s/wf/not-json" % name, "the export is not a JSON document", base)
+            continue
+        doc = fix_dialect_py(json.loads(json.dumps(out[1])))
+        doc["definitions"] = fix_dialect_py(json.loads(json.dumps(out[2])))
+        ok = []
+        for i, j in enumerate(sers):
+            if isinstance(j, tuple) and j and j[0] == "raise":
+                rep.stat("extras", "serialize-raises:" + j[1])
+            elif is_jsonable(j):
+                ok.append((i, json.loads(json.dumps(j))))
+        jobs.append({"doc": doc, "instances": [j for _, j in ok]})
+        meta.append((name, base, ok))
+    try:
+        results = run_vt(jobs) if jobs else []
+    except Exception as ex:  # noqa
+        rep.broken("oracle:python3-vt(extras)", str(ex))
+        return
+    n = 0
+    for (name, base, ok), res in zip(meta, results):
+        if res["schema_error"] or res["refs_missing"]:
+            what = res["schema_error"]["message"] if res["schema_error"] else "unresolved " + ", ".join(res["refs_missing"])
+            rep.finding("C08/extras/%s/wf/%s" % (name, (res["schema_error"] or {"keyword": "$ref"})["keyword"]),
+                        "export of case %s is not a well-formed draft-4 schema with resolving $refs: %s" % (name, what), base)
+            continue
+        for (i, j), v, err in zip(ok, res["verdicts"], res["errors"]):
+            n += 1
+            if v is False:
+                rep.finding("C08/extras/%s/complete/%s" % (name, err["validator"]),
+                            "a valid instance of case %s, serialized, is rejected by the exported schema: %s" % (name, err["message"]),
+                            dict(base, instance_index=i, serialized=j, error=err))
+    rep.obligation("oracle:extras(StructureReference, inheritance, ImmutableStructure, mapper argument)", True,
+                   "%d cases, %d serialized instances validated" % (len(meta), n))
 
 
 def run(rep, tier):
     rnd = random.Random(core.seed() * 1000003 + 8)
     n_env = 170 if tier == "quick" else 1400
+    import time
+    t0 = time.time()
+    timing = {}
+
+    def lap(name):
+        nonlocal t0
+        timing[name] = round(timing.get(name, 0) + time.time() - t0, 2)
+        t0 = time.time()
     proofs_ok, model_ok = core.standard_proof_obligations(rep, "C08", ["theories/Check/C08chk.vo"])
+    lap("build+proofs")
     pats = Pats()
     envs = []
     for idx in range(n_env):
@@ -1330,6 +1534,7 @@ def run(rep, tier):
         env.events = run_history(env)
         events += env.events
     mutated = sum(1 for e in envs if e.required_mutated)
+    lap("generate+export")
     rep.cov["streams"]["lattice:enum"] = {"evaluations": len(lat_e)}
     rep.cov["streams"]["lattice:ref-graph-x-history"] = {"evaluations": len(lat_r)}
 
@@ -1381,15 +1586,17 @@ def run(rep, tier):
                     kinds.append("near")
         jobs.append({"doc": doc, "instances": docs})
         meta.append((vi, sers, kinds))
+    lap("serialize")
     try:
         results = run_vt(jobs)
     except Exception as ex:  # noqa
         rep.broken("oracle:python3-vt", str(ex))
         results = []
+    lap("validator")
 
     vcases, wcases = [], []
     n_ser = n_near = n_exact_dis = 0
-    wf_fail, comp_fail = [], []
+    wf_fail, comp_fail, exact_fail = [], [], []
     for (vi, sers, kinds), job, res in zip(meta, jobs, results):
         ev = events[vi]
         env, ex = ev.env, ev.out
@@ -1434,10 +1641,8 @@ def run(rep, tier):
                 rep.stat("exact", "validator:%s/deserializer:%s" % (verdict, acc))
                 if verdict and not acc:
                     n_exact_dis += 1
-                    rep.finding("C08/exact/%s/%s" % (exn, exact_culprit(env, j, exn)),
-                                "a document admitted by the exported schema of %s is rejected by the Deserializer (%s)" % (env.top, exn),
-                                dict(replay_fields(ev), python=script(ev, "print(Deserializer(%s).deserialize(%r))" % (env.top, j)),
-                                     doc=j, schema=ex[1], definitions=ex[2], kind="exact"))
+                    exact_fail.append({"doc": job["doc"], "inst": (j,), "want": False, "exn": exn, "ev": ev,
+                                       "ctx": {"env": env, "eff": eff, "kwargs": []}})
     try:
         wkeys = classify(wf_fail, WF_REPAIRS, "C08/wf/",
                          lambda f: "C08/wf/%s/%s" % ((f["res"]["schema_error"] or {"keyword": "$ref"})["keyword"],
@@ -1446,9 +1651,18 @@ def run(rep, tier):
         ckeys = classify(comp_fail, COMPLETE_REPAIRS, "C08/complete/",
                          lambda f: "C08/complete/%s/%s" % (f["err"]["validator"], "nested" if len(f["err"]["instance_path"]) > 1 else "top"))
         still = run_vt([{"doc": f["doc"], "instances": [f["inst"][0]]} for f in comp_fail]) if comp_fail else []
+        # exactness: explained by a repair when the repaired (stricter) schema rejects; otherwise keyed by the culprit field
+        ekeys = classify(exact_fail, EXACT_REPAIRS, "C08/exact/",
+                         lambda f: "C08/exact/%s/%s" % (f["exn"], exact_culprit(f["ev"].env, f["inst"][0], f["exn"])))
     except Exception as ex:  # noqa
         rep.broken("oracle:python3-vt(classification)", str(ex))
-        wkeys, ckeys, still = [], [], []
+        wkeys, ckeys, still, ekeys = [], [], [], []
+    for f, key in zip(exact_fail, ekeys):
+        ev, j = f["ev"], f["inst"][0]
+        env, ex = ev.env, ev.out
+        rep.finding(key, "a document admitted by the exported schema of %s is rejected by the Deserializer (%s)" % (env.top, f["exn"]),
+                    dict(replay_fields(ev), python=script(ev, "print(Deserializer(%s).deserialize(%r))" % (env.top, j)),
+                         doc=j, schema=ex[1], definitions=ex[2], kind="exact"))
     for f, key in zip(wf_fail, wkeys):
         ev, res = f["ev"], f["res"]
         env, ex = ev.env, ev.out
@@ -1467,6 +1681,9 @@ def run(rep, tier):
             dict(replay_fields(ev), python=script(ev, "x = %s(%s)\nprint(serialize(x))\nprint(s, d)" % (
                 env.top, ", ".join("%s=%s" % (k, G.py_src(v)) for k, v in kw))),
                  kwargs=kw, serialized=f["inst"][0], schema=ex[1], definitions=ex[2], error=err, kind="complete"))
+    lap("deserializer+classification")
+    run_extras(rep)
+    lap("extras")
     rep.obligation("oracle:well-formed+refs", True, "%d exports (%d environments) checked by Draft4Validator.check_schema" % (
         len(results), len(envs)))
     rep.obligation("oracle:serialized-valid-instances-validate", True, "%d serialized valid instances validated" % n_ser)
@@ -1476,7 +1693,10 @@ def run(rep, tier):
     # ---- correspondences inside Coq
     if model_ok:
         shards = []
-        per = 40
+
+        def chunk_size(n, target, cap):
+            """about `target` shards (one coqc start-up each), at most `cap` cases per shard"""
+            return max(1, min(cap, -(-n // target)))
         stexts = []
         for ev in events:
             try:
@@ -1484,6 +1704,7 @@ def run(rep, tier):
             except Exception as e:  # noqa
                 stexts.append(None)
         sidx = [i for i, t in enumerate(stexts) if t is not None]
+        per = chunk_size(len(sidx), 10, 120)
         for s in range(0, len(sidx), per):
             chunk = sidx[s:s + per]
             body = "Definition cases : list scase := %s.\n" % E.lst(["\n " + stexts[i] for i in chunk])
@@ -1504,6 +1725,7 @@ def run(rep, tier):
                     rtexts.append((vi, kw, j, rcase_text(env, st[2], j)))
                 except Exception:  # noqa
                     pass
+        per = chunk_size(len(rtexts), 10, 150)
         for s in range(0, len(rtexts), per):
             chunk = rtexts[s:s + per]
             body = "Definition cases : list rcase := %s.\n" % E.lst(["\n " + t[3] for t in chunk])
@@ -1511,7 +1733,7 @@ def run(rep, tier):
                 body += "Eval vm_compute in (indices_where %s cases 0).\n" % fn
             shards.append(("R", chunk, body, 2))
         # validator stream
-        vper = 120
+        vper = chunk_size(len(vcases), 10, 400)
         for s in range(0, len(vcases), vper):
             chunk = vcases[s:s + vper]
             items = []
@@ -1521,13 +1743,16 @@ def run(rep, tier):
             body = "Definition cases : list vcase := %s.\n" % E.lst(["\n " + i for i in items])
             body += "Eval vm_compute in (indices_where vmismatch cases 0).\n"
             shards.append(("V", chunk, body, 1))
-        for s in range(0, len(wcases), 200):
-            chunk = wcases[s:s + 200]
+        wper = chunk_size(len(wcases), 2, 400)
+        for s in range(0, len(wcases), wper):
+            chunk = wcases[s:s + wper]
             body = "Definition cases : list wcase := %s.\n" % E.lst(["\n " + i for i in chunk])
             body += "Eval vm_compute in (indices_where wmismatch cases 0).\n"
             shards.append(("W", list(range(s, s + len(chunk))), body, 1))
+        lap("emit-coq-cases")
         try:
             outs = coq_eval([(b, n) for _, _, b, n in shards], "c08")
+            lap("coq-eval(%d shards)" % len(shards))
         except RuntimeError as ex:
             rep.broken("correspondence:coq-eval", str(ex))
             outs = None
@@ -1586,6 +1811,7 @@ def run(rep, tier):
             if cnw:
                 rep.broken("characterisation:clean-implies-wf", "schema_clean holds but wf_doc fails on %d classes" % len(cnw),
                            {"python": events[cnw[0]].env.source()})
+    rep.cov["timing_s"] = timing
     for ev in events[:2]:
         rep.sample({"classes": ev.env.source()[-700:], "history": ev.env.history, "export": repr(ev.out)[:600]})
     if not proofs_ok:
@@ -1608,6 +1834,20 @@ def run(rep, tier):
 
 def replay(obj):
     """Re-run a replay on the implementation + the independent validator alone."""
+    if obj.get("kind") == "extras":
+        ns, out, sers = XT.run_case(obj["extras_src"])
+        print("export:", out)
+        if out[0] != "ok" or not (is_jsonable(out[1]) and is_jsonable(out[2])):
+            print("required: a JSON schema document")
+            return 1
+        doc = fix_dialect_py(json.loads(json.dumps(out[1])))
+        doc["definitions"] = fix_dialect_py(json.loads(json.dumps(out[2])))
+        ok = [json.loads(json.dumps(j)) for j in sers if not (isinstance(j, tuple) and j and j[0] == "raise") and is_jsonable(j)]
+        res = run_vt([{"doc": doc, "instances": ok}])[0]
+        print("serialized:", ok)
+        print("check_schema:", res["schema_error"], "unresolved refs:", res["refs_missing"], "verdicts:", res["verdicts"])
+        print("required: well-formed, $refs resolve, every serialization validates")
+        return 1 if (res["schema_error"] or res["refs_missing"] or any(v is False for v in res["verdicts"])) else 0
     if not obj.get("classes_src"):
         print("nothing to replay:", obj.get("broken"), obj.get("detail", "")[:500])
         return 2
@@ -1656,6 +1896,9 @@ def replay(obj):
         print("required: the serialization validates")
         return 1 if res["verdicts"] and res["verdicts"][0] is False else 0
     if kind == "exact":
+        r = S.Context.resolved.__get__(type("X", (), {"classes": {top: cls}})())(top)
+        if len(r["field_names"]) == 1 and r["required"] == r["field_names"] and not r["additional"]:
+            ns["Structure"].set_compact_deserialization_default(True)     # a field wrapper: the export is the compact form
         try:
             ns["Deserializer"](cls).deserialize(copy.deepcopy(obj["doc"]))
             acc = True
